@@ -207,6 +207,13 @@ def _ids(ck, P, cfg):
             return
         if e4.get("remote_msg_received[%d]" % ph2) != 1 or e4.get("remote_msg_received[%d]" % (1 - ph2)) != 0:
             problems.append(("colour-anti", "an anti-message sent under colour %d (event colour %d) is counted for colour %s" % (ph2, ph, [k for k in (0, 1) if e4.get("remote_msg_received[%d]" % k)])))
+        # the event's buffer is handed to a NON-BLOCKING send and the anti-message colour is later stamped into that same buffer:
+        # MPI may read the event after the stamping, so the event can arrive carrying the anti colour bit as well
+        o5 = interp.Interp(rcv).run({"%s->raw_flags" % rm: raw_a, "remote_msg_received[0]": 0, "remote_msg_received[1]": 0})
+        w5 = o5[0].env.get("%s->raw_flags" % rm)
+        if w5 is None or (w5 & M32) != w or o5[0].env.get("remote_msg_received[%d]" % ph) != 1:
+            problems.append(("late-read", "an event whose buffer MPI reads after its sender stamped the anti-message colour %d into it arrives as %#x instead of %#x: it looks already "
+                             "processed / carries a different sender word, so neither its anti-message nor an early anti-message ever matches it" % (ph2, (w5 or 0) & M32, w)))
         wa = e4["%s->raw_flags" % arm] & M32
         if wa != (w | ANTI):
             problems.append(("anti-matches-event", "event word %#x but anti-message word %#x (expected %#x): the two can never be matched" % (w, wa, w | ANTI)))
@@ -221,7 +228,7 @@ def _ids(ck, P, cfg):
             continue
         seen.add(key)
         ck.violated("C02.4", "id:%s" % key, snd.where if "send" in key or key in ("recognised-remote", "distinct-senders", "flag-bits-clear") else rcv.where, text, cfg)
-    for key in ("send-count", "colour-event", "recognised-remote", "flag-bits-clear", "anti-send-count", "colour-anti", "anti-matches-event", "distinct-senders"):
+    for key in ("send-count", "colour-event", "recognised-remote", "flag-bits-clear", "anti-send-count", "colour-anti", "late-read", "anti-matches-event", "distinct-senders"):
         if key not in seen:
             ck.holds("C02.4", "id:%s" % key, snd.where, "over %d (rank, thread, colours, sequence) combinations incl. rank %d and thread %d" % (n_eval, nids[-1], rids[-1]), cfg)
     ck.meta["c02_id_evaluations"] = n_eval
